@@ -50,6 +50,8 @@ class Runner(object):
     def __init__(self, ck, drv):
         self.ck, self.drv = ck, drv
         self.corr = []            # (what, case, real, model, tie)  correspondence breaks without failing input
+        self.unrepaired = []      # same, where the real code behaves as the model of the unrepaired code
+        self.nviol = 0            # failing inputs found by the oracle (before de-duplication by signature)
         self.n = 0
         self.ptr = 4
         import amoco.arch.x86.cpu_x86 as cpu_x86
@@ -62,6 +64,7 @@ class Runner(object):
             sig = "C15:%s:%s" % (fmt, aspect)
         else:
             sig = "C15:%s:%s:%s" % (fmt, aspect, loader)
+        self.nviol += 1
         self.ck.report(sig, what, "oracle", theorem, case=case, real=real, model=model, expected=expected)
 
     def broken(self, what, case, real, model, tie):
@@ -69,7 +72,38 @@ class Runner(object):
 
     # -- shared comparison ---------------------------------------------------------------------------
     def compare(self, fmt, loader, case, L, names, model, ranges, fetch, facts, entry, pcbits, loadable, theorem,
-                later_wins=False):
+                later_wins=False, req=None):
+        """real task vs model vs declared mapping; a disagreement between the real code and the model that the
+        oracle cannot turn into a failing input on this case (image outside the theorem's hypothesis) is set aside
+        when the real code agrees with the model of the *unrepaired* code: then it is the defect for which
+        failing inputs are reported on other cases of the run."""
+        n0, v0 = len(self.corr), self.nviol
+        ok = self.compare_(fmt, loader, case, L, names, model, ranges, fetch, facts, entry, pcbits, loadable, theorem, later_wins)
+        new = self.corr[n0:]
+        if new and req is not None:
+            if self.nviol > v0:
+                del self.corr[n0:]            # the oracle produced a failing input on this very case
+                self.ck.count("disagreement.with-failing-input")
+            else:
+                old = self.drv.ask(dict(req, fix="none"))
+                n1 = len(self.corr)
+                if isinstance(old, dict) and old.get("task") and not old.get("empty"):
+                    self.compare_(fmt, loader, case, L, names, old, ranges, fetch, None, None, pcbits, False, theorem, later_wins)
+                    agrees = len(self.corr) == n1
+                    del self.corr[n1:]
+                    if agrees:
+                        self.unrepaired += self.corr[n0:]
+                        del self.corr[n0:]
+                        self.ck.count("disagreement.real-code-is-the-unrepaired-model")
+                elif isinstance(old, dict) and old.get("empty") and not model.get("empty"):
+                    # without the repair a segment without file part writes nothing (an empty write, outside the memory model)
+                    self.unrepaired += self.corr[n0:]
+                    del self.corr[n0:]
+                    self.ck.count("disagreement.unrepaired-model-writes-nothing")
+        return ok
+
+    def compare_(self, fmt, loader, case, L, names, model, ranges, fetch, facts, entry, pcbits, loadable, theorem,
+                 later_wins=False):
         """real task `L` vs model result vs the declared mapping. returns True when all agree."""
         ck = self.ck
         ok = True
@@ -235,9 +269,19 @@ class Runner(object):
             self.broken("driver:elf", case, None, model, "driver")
             return
         ck.count("elf.loaded" if L is not None else "elf.rejected")
-        # what the independent reader says about the image
         base = top - (top & m)
         stack = (base - 2 * ps, base)
+        if model["task"] is None and e.machine in (243, 2):
+            # load_program falls back to the bare-metal ELF loader of the machine (baremetal/riscv.py, leon2.py):
+            # page size 4096, stack in a zone of its own, no symbol binding
+            ck.count("elf.baremetal-fallback")
+            ps, m, stack = 4096, 4095, None
+            req["cfg"] = {"ps": 4096, "ptr": 4, "top": top, "aslr": False, "bare": True, "thumb": False}
+            req["ranges"] = ranges = [[page_base(ps, p["vaddr"]) - 3, min((p["vaddr"] & m) + max(p["filesz"], p["memsz"]) + 2 * ps + 6, RANGE_CAP)]
+                                      for p in L_[:6]]
+            rel = []
+            model = drv.ask(req)
+        # what the independent reader says about the image
         loadable = O.elf_loadable(data, e, ps, stack)
         full = loadable and e.entry < (1 << (8 * ptr))
         if model["loadable"] != full:
@@ -266,7 +310,7 @@ class Runner(object):
         # ARM ELF: an odd e_entry is a Thumb entry point at the even address
         entry = (e.entry & ~1) if arm and e.entry < (1 << 32) else e.entry
         ok = self.compare("elf", loader, case, L, names, model, ranges, fetch, facts, entry, 8 * ptr, loadable,
-                          "Amoco.Loader.Props.elf_image")
+                          "Amoco.Loader.Props.elf_image", req=req)
         kinds = (meta or {}).get("kinds", [])
         nontrivial = loadable and (len(L_) > 1 or any(p["memsz"] > p["filesz"] for p in L_) or bool(slots))
         ck.case(("elf", tag, ps), nontrivial=nontrivial)
@@ -341,7 +385,7 @@ class Runner(object):
                                dict(case, address=p.base + erva), w, None, want.hex(), "Amoco.Loader.Props.block_present")
         facts = O.pe_facts(data, p, ptr, list(dict(imports).items()))
         self.compare("pe", loader, case, L, names, model, ranges, fetch, facts, (p.base + p.entry_rva), 8 * ptr, loadable,
-                     "Amoco.Loader.Props.pe_image")
+                     "Amoco.Loader.Props.block_present / pe_section_bytes", req=req)
         ck.case(("pe", tag), nontrivial=loadable and any(s["vsize"] != s["rawsize"] for s in p.sections))
         if self.n % 41 == 1:
             ck.sample({"format": "pe", "loader": loader, "sections": [[s["rva"], s["vsize"], s["rawptr"], s["rawsize"]] for s in p.sections],
@@ -381,7 +425,7 @@ class Runner(object):
         unexpected = [a for a, _ in slots if a not in lazy]
         if unexpected:
             self.violation("macho", "slot", "osx/x64", "a symbol is bound at %#x, which is not a lazy symbol pointer slot of the file"
-                           % unexpected[0], case, unexpected[:4], None, sorted(lazy)[:8], "Amoco.Loader.Props.macho_image")
+                           % unexpected[0], case, unexpected[:4], None, sorted(lazy)[:8], "Amoco.Loader.Props.block_present / macho_segment_bytes")
         ranges, fetch = [], []
         r = rng("C15/fetch/%s" % tag)
         for s in mm.segs:
@@ -401,7 +445,7 @@ class Runner(object):
         loadable = O.macho_loadable(mm)
         facts = O.macho_facts(data, mm) + [("slot", a, 8, nm) for a, nm in slots]
         self.compare("macho", "osx/x64", case, L, names, model, ranges, fetch, facts, entry, 64, loadable,
-                     "Amoco.Loader.Props.macho_image")
+                     "Amoco.Loader.Props.block_present / macho_segment_bytes", req=req)
         ck.case(("macho", tag), nontrivial=loadable and any(s["vmsize"] > s["filesize"] > 0 for s in mm.segs))
         if self.n % 41 == 1:
             ck.sample({"format": "macho", "segments": [[s["vmaddr"], s["vmsize"], s["fileoff"], s["filesize"]] for s in mm.segs],
@@ -428,6 +472,9 @@ class Runner(object):
         try:
             L = R.load(path or data, 4096, cpu=self.cpu_x86)
         except Exception as ex:
+            if fmt == "raw":
+                ck.count("raw.read_program-raised")      # a format parser raised on arbitrary bytes: C20's subject
+                return
             self.broken("load_program-raised:" + fmt, case, repr(ex), None, "load_program raised")
             return
         if L is None or type(L.t).__name__ != "RawExec":
@@ -448,7 +495,7 @@ class Runner(object):
         ck.count("%s.loaded" % fmt)
         loader = {"seg": "start-segment-address", "lin": "start-linear-address"}.get(aspect_entry, "raw")
         self.compare(fmt, loader, case, L, names, model, ranges, fetch, O.records_facts(recs), entry, 32,
-                     all(len(b) for a, b in recs), "Amoco.Loader.Props.records_image", later_wins=True)
+                     all(len(b) for a, b in recs), "Amoco.Loader.Props.loader_image", later_wins=True, req=req)
         overl = any(a1 < a2 + len(b2) and a2 < a1 + len(b1) for i, (a1, b1) in enumerate(recs) for (a2, b2) in recs[:i])
         ck.case((fmt, tag), nontrivial=overl or len(recs) > 1)
         if self.n % 41 == 1:
@@ -621,6 +668,9 @@ def main(tier):
     for b in broken:
         ck.report("C15:proof-obligation", "proof obligation broken: %s" % b[:300], "proof-obligation", b[:2000],
                   failing_input_found=False)
+    if run.unrepaired and not ck.violations:
+        # the real code behaves like the unrepaired model somewhere, yet no failing input was found anywhere in the run
+        run.corr += run.unrepaired
     seen = set()
     for what, case, real, model, tie in run.corr:
         if what in seen:
